@@ -23,7 +23,8 @@ DATA = "/verif/build/C01-data"
 
 
 def build(ctx):
-    return {"h01": ctx.build("h01", ["h01.cpp"], opt="-O2")}
+    return {"h01": ctx.build("h01", ["h01.cpp"], opt="-O2"),
+            "h01cap": ctx.build("h01cap", ["h01.cpp"], opt="-O2", flags=["-DOSMIUM_VERIF_DYNAMIC_BUFFER_SIZE"])}
 
 
 def _sweep_stale():
@@ -41,11 +42,14 @@ def _sweep_stale():
 
 
 def run(ctx):
-    exe = build(ctx)["h01"]
+    exes = build(ctx)
+    exe = exes["h01"]
     if getattr(ctx, "build_only", False):
         return
     _sweep_stale()
     try:
+        # reader-side buffer capacity sweep (hook H8): its own build, its own share of the time
+        ctx.run_harness(exes["h01cap"], ["--part", "cap", "--budget", "%.0f" % max(5.0, ctx.remaining() * 0.15)], shards=16)
         # every part gets its share of the time that is left (a part that ends early leaves its time to the later ones)
         parts = [("hdr", 16, 1), ("ofat", 16, 10), ("blk", 16, 2), ("big", 4 if ctx.tier == "quick" else 6, 2), ("prod", 16, 3), ("bbox", 16, 2)]
         for i, (part, shards, share) in enumerate(parts):
